@@ -137,6 +137,36 @@ Definition handle (ts : list tok) : list tok :=
         | [TBytes b] => toks_of_parse (parse_counted (bool_of padded) b)
         | _ => [sym "ERR"; sym "badline"]
         end
+      else if is_sym "pyintz" cmd then          (* pyintz k pre post: int(pre + "0"*k + post) *)
+        match r with
+        | [TText pre; TText post] =>
+            match py_int_full (pre ++ repeat 48 (Z.to_nat padded) ++ post)%list with
+            | Ok z => [sym "ok"; TInt z]
+            | Err e => [sym "err"; TInt (exn_code e)]
+            end
+        | _ => [sym "ERR"; sym "badline"]
+        end
+      else if is_sym "tagpathz" cmd then        (* tagpathz k pre post inst use: the tag pre + "0"*k + post *)
+        match r with
+        | [TText pre; TText post; i; TInt use] =>
+            let inst := match i with TInt z => Some z | _ => None end in
+            match tag_request_path (pre ++ repeat 48 (Z.to_nat padded) ++ post)%list inst (bool_of use) with
+            | Ok (Some b) => [sym "ok"; TBytes b]
+            | Ok None => [sym "none"]
+            | Err e => [sym "err"; TInt (exn_code e)]
+            end
+        | _ => [sym "ERR"; sym "badline"]
+        end
+      else if is_sym "esegz" cmd then           (* esegz k (n <int> | s <text>) pre post: PortSegment(port, pre + "0"*k + post) *)
+        match r with
+        | [k; TInt n; TText pre; TText post] =>
+            if is_sym "n" k then toks_of_res (encode_seg true (Port (inl n) (LinkStr (pre ++ repeat 48 (Z.to_nat padded) ++ post)%list)))
+            else [sym "ERR"; sym "badline"]
+        | [k; TText n; TText pre; TText post] =>
+            if is_sym "s" k then toks_of_res (encode_seg true (Port (inr n) (LinkStr (pre ++ repeat 48 (Z.to_nat padded) ++ post)%list)))
+            else [sym "ERR"; sym "badline"]
+        | _ => [sym "ERR"; sym "badline"]
+        end
       else if is_sym "parsecx" cmd then
         match r with
         | [TBytes b] => toks_of_parse (parse_counted_with 3 (bool_of padded) b)
